@@ -230,17 +230,17 @@ def install_loop_specs(ctx):
         rn['old_cur'], rn['old_up'] = pd[d].pred, pd[d - 1].pred
         rn['plist'] = plist.pred
 
-    def quad(b):
-        pl = rn['plist']
-        return And(pl(b + 1), pl(b + 2), pl(b + 3))
-
-    def base_ok(done, b):
-        return And(done(b), Sym(elem(b) % 4 == 0), quad(b))
-
     def rn_F(done):
-        oc, ou = rn['old_cur'], rn['old_up']
-        cur = lambda e: And(oc(e), Not(Or(*[base_ok(done, to_r(e) - k) for k in range(4)])))
-        up = lambda e: Or(ou(e), And(to_r(e) != INVALID, base_ok(done, to_r(e) * 4)))
+        # capture the state of THIS loop instance (the level loop of _renorm runs this loop once per level)
+        oc, ou, pl = rn['old_cur'], rn['old_up'], rn['plist']
+
+        def quad(b):
+            return And(pl(b + 1), pl(b + 2), pl(b + 3))
+
+        def base_ok(b):
+            return And(done(b), Sym(elem(b) % 4 == 0), quad(b))
+        cur = lambda e: And(oc(e), Not(Or(*[base_ok(to_r(e) - k) for k in range(4)])))
+        up = lambda e: Or(ou(e), And(to_r(e) != INVALID, base_ok(to_r(e) * 4)))
         return cur, up
 
     def rn_install(c, env, done):
